@@ -570,6 +570,12 @@ class DEVSSimulator(Simulator[TIME], Generic[TIME]):
         if (self.is_starting_or_running() 
                 or self._run_state == RunState.STOPPING):
             raise DSOLError("cannot initialize a running simulation")
+        if (not isinstance(model, ModelInterface)
+                or not hasattr(model, '_simulator')
+                or not isinstance(replication, ReplicationInterface)):
+            # invalid arguments are refused (by Simulator.initialize) before
+            # the pending events of the current replication are discarded
+            super().initialize(model, replication)
         self._eventlist.clear()
         super().initialize(model, replication)
         # schedule warmup BEFORE events at warmup time
